@@ -141,6 +141,37 @@ def r08e(F):
 		ok = k == c['LGP'] and len(terms) == 1 and list(terms.values()) == [1]
 		out.append(Result('08.e', ok, ('ok:' if ok else 'shape:') + 'unforwarded-limit', 'unforwarded_htlc_cltv_limit = %s (expected height + LATENCY_GRACE_PERIOD_BLOCKS)' % expr_str(lim), 1, where=F.where(fu.name)))
 	out += P7_guard(F, '08.e', FC + 'do_best_block_updated', 'holding-cell HTLC expiry', r'cltv_expiry$', r'^[a-z_][a-z0-9_]*$', 'Le', 0)
+	# the HTLCs dropped from the holding cell are reported at EVERY successful exit: each Ok((_, X, _)) returns the vector the retain closure filled
+	filled = set()
+	for bi, si, st in fu.stmts():
+		rv = st[2]
+		if rv[0] == 'agg' and rv[1] == 'closure' and any(norm(ci.get('f') or '').endswith('Vec::retain') for b2, ci in fu.calls() if b2 == bi or True):
+			for op in rv[4]:
+				if op[0] in ('c', 'm') and len(op[1]) == 1:
+					for d in fu.defs.get(op[1][0], []):
+						if d[3][0] == 'ref' and d[3][1] is True:
+							e = ex.of_rvalue(d[3])
+							while e[0] in ('ref', 'deref'):
+								e = e[1]
+							if e[0] == 'local' and 'Vec<(' in (fu.locals[e[1]].get('ty') or '') and 'HTLCSource' in (fu.locals[e[1]].get('ty') or ''):
+								filled.add(e[1])
+	if len(filled) != 1:
+		out.append(Result('08.e', False, 'anchor:timed-out-vector', 'do_best_block_updated: the vector filled by the holding-cell retain closure was not found (%d candidates)' % len(filled), where=F.where(fu.name)))
+	else:
+		L = list(filled)[0]
+		n_ok, lost = 0, []
+		for bi, si, st in fu.stmts():
+			rv = st[2]
+			if st[1] == [0] and rv[0] == 'agg' and rv[1] == 'adt' and rv[3] == 'Ok' and bi in fu.reach([0]):
+				n_ok += 1
+				e = ex.of_operand(rv[4][0])
+				el = e[3][1] if e[0] == 'agg' and e[1] is None and len(e[3]) == 3 else None
+				while el is not None and el[0] in ('ref', 'deref'):
+					el = el[1]
+				if not (el is not None and el[0] == 'local' and el[1] == L):
+					lost.append(fu.line_of(bi))
+		okl = n_ok >= 3 and not lost
+		out.append(Result('08.e', okl, ('ok:' if okl else 'dropped:') + 'timed-out-holding-cell-htlcs-returned', 'do_best_block_updated: every one of the %d Ok exits returns the HTLCs that were just dropped from the holding cell%s' % (n_ok, '' if not lost else ' - not at line(s) %s: those HTLCs are gone from the holding cell but never failed back, so the inbound HTLC stays pending until the upstream peer closes the channel' % lost), n_ok, where=F.where(fu.name, lost[0] if lost else None)))
 	# the deadline scans cover every commitment an HTLC can live in: current AND previous counterparty commitment
 	for fn2 in (fn, MONP + 'ChannelMonitorImpl::block_confirmed'):
 		fu2 = F.func(fn2)
